@@ -5,6 +5,7 @@ Ties: T = _should_always_keep translated each run; D = prune model vs the real p
 (V) interface_ok evaluated in Coq on real exports against jax.eval_shape, over programs x configurations."""
 import itertools
 import json
+import re
 
 import numpy as np
 
@@ -51,6 +52,120 @@ def jleaf(dtype_name, dims, nchw):
     return f"(mkJL {zlit(PREC[dtype_name])} [{'; '.join(d(x) for x in dims)}] {common.blit(nchw)})"
 
 
+# ---------------------------------------------------------------- custom names (_apply_custom_io_names_on_ir vs IoNames.apply_names)
+def _names_graph(ir, rng):
+    k_in, m = rng.randint(1, 3), rng.randint(1, 4)
+    ins = [ir.val(f"in_{i}", ir.DataType.FLOAT, (2,)) for i in range(k_in)]
+    pool, nodes, mids = list(ins), [], []
+    inter_names = rng.sample(["t0", "t1", "relu_out_0", "add_out_0", "x", "y", "out_0", "tmp"], m)
+    for j in range(m):
+        o = ir.val(inter_names[j], ir.DataType.FLOAT, (2,))
+        if rng.random() < 0.5 or len(pool) < 2:
+            nodes.append(ir.Node("", "Relu", [rng.choice(pool)], outputs=[o], name=f"n{j}"))
+        else:
+            nodes.append(ir.Node("", "Add", rng.sample(pool, 2), outputs=[o], name=f"n{j}"))
+        pool.append(o)
+        mids.append(o)
+    outs = rng.sample(mids, rng.randint(1, min(2, len(mids))))
+    if mids[-1] not in outs and rng.random() < 0.5:
+        outs[0] = mids[-1]
+    g = ir.Graph(ins, outs, nodes=nodes, name="g", opset_imports={"": 23})
+    return ir.Model(g, ir_version=10), g, ins, mids, outs
+
+
+def names_tie(ctx, ir):
+    from jax2onnx import user_interface as ui
+    rng = ctx.rng
+    n_cases = 250 if ctx.tier == "quick" else 2500
+    rows, diverge = [], []
+    dist = {"ok": 0, "Collide": 0, "NotUnique": 0, "Conflict": 0, "other": 0, "target_is_intermediate": 0}
+    for ci in range(n_cases):
+        model, g, ins, mids, outs = _names_graph(ir, rng)
+        allv = ins + mids
+        before = [v.name for v in allv]
+        fresh = ["x", "y", "z", "w", "image", "logits"]
+
+        def pick():
+            r = rng.random()
+            return rng.choice(fresh) if r < 0.6 else rng.choice(before)
+        in_names = [pick() for _ in ins] if rng.random() < 0.7 else None
+        out_names = [pick() for _ in outs] if (rng.random() < 0.8 or in_names is None) else None
+        pairs = [(allv.index(v), t) for v, t in zip(ins, in_names or [])] + [(allv.index(v), t) for v, t in zip(outs, out_names or [])]
+        renamed = {i for i, _ in pairs}
+        if any(t in [before[i] for i in range(len(allv)) if i not in renamed and allv[i] in mids] for _, t in pairs):
+            dist["target_is_intermediate"] += 1
+        try:
+            ui._apply_custom_io_names_on_ir(model, input_names=in_names, output_names=out_names, positional_input_count=len(ins))
+            real = ("ok", [v.name for v in allv])
+        except ValueError as exc:
+            msg = str(exc)
+            real = (("Conflict",) if "Conflicting" in msg else ("NotUnique",) if "globally unique" in msg
+                    else ("Collide",) if "collide" in msg else ("other", msg))
+        except Exception as exc:  # noqa: BLE001
+            real = ("other", f"{type(exc).__name__}: {exc}")
+        dist[real[0]] += 1
+        call = {"kind": "custom_names", "values": before, "inputs": [allv.index(v) for v in ins], "outputs": [allv.index(v) for v in outs],
+                "nodes": [[n.op_type, [allv.index(i) for i in n.inputs], allv.index(n.outputs[0])] for n in list(g)[:len(mids)]],
+                "input_names": in_names, "output_names": out_names, "real": list(real)}
+        if real[0] == "ok":
+            after = real[1]
+            wrong = [(i, t, after[i]) for i, t in pairs if after[i] != t]
+            dup = sorted({n for n in after if after.count(n) > 1})
+            touched = [(i, before[i], after[i]) for i in range(len(allv)) if i not in renamed and after[i] != before[i]]
+            if dup:
+                ctx.violate("custom-names:collide", f"to_onnx naming step on a graph with values {before}: input_names={in_names}, "
+                            f"output_names={out_names} went through and left two values named {dup} (names afterwards {after})", call)
+            elif wrong:
+                ctx.violate("custom-names:not-applied", f"naming step on values {before}: input_names={in_names}, output_names={out_names}: "
+                            f"value/target/actual {wrong}", call)
+            elif touched:
+                ctx.violate("custom-names:other-value-renamed", f"naming step on values {before}: input_names={in_names}, "
+                            f"output_names={out_names} renamed values the user did not name: {touched}", call)
+        if real[0] != "other":
+            rows.append((before, pairs, real))
+        else:
+            diverge.append(call)
+    seen = set()
+    ctx.violations[:] = [v for v in ctx.violations if not (v["key"].startswith("custom-names:") and (v["key"] in seen or seen.add(v["key"])))]
+
+    def slit(x):
+        return '"' + x + '"'
+
+    def plist(l):
+        return "[" + "; ".join(f"({i}%nat, {slit(n)})" for i, n in l) + "]"
+
+    def rlit(r):
+        return "inl " + plist(list(enumerate(r[1]))) if r[0] == "ok" else f"inr {r[0]}"
+    head = common.CASES_HEADER + ("From J2O Require Import IoNames.\nOpen Scope string_scope.\n"
+        "Definition neq_ (a b : list (nat * string)) : bool := (Nat.eqb (List.length a) (List.length b)) && "
+        "forallb (fun p => Nat.eqb (fst (fst p)) (fst (snd p)) && String.eqb (snd (fst p)) (snd (snd p))) (combine a b).\n"
+        "Definition ncase_ := (list (nat * string) * list (nat * string) * (list (nat * string) + name_err))%type.\n"
+        "Definition ncmp_ (c : ncase_) : bool := let '(vs, ps, r) := c in match apply_names vs ps, r with\n"
+        "  | inl f, inl g => neq_ f g | inr Conflict, inr Conflict => true | inr NotUnique, inr NotUnique => true\n"
+        "  | inr Collide, inr Collide => true | _, _ => false end.\n")
+    txt = head
+    chunks = [rows[i:i + 125] for i in range(0, len(rows), 125)]
+    for k, ch in enumerate(chunks):
+        txt += f"Definition ns{k} : list ncase_ := [\n" + ";\n".join(
+            f"({plist(list(enumerate(before)))}, {plist(pairs)}, {rlit(real)})" for before, pairs, real in ch) + "].\n"
+        txt += f"Eval vm_compute in bad_idx_ ncmp_ 0 ns{k}.\n"
+    ok, out = common.coq_eval_file(ctx, "c05_names_cases", txt)
+    lists = re.findall(r"=\s*(\[[^\]]*\]|nil)\s*:\s*list nat", out.replace("\n", " "))
+    if not ok or len(lists) != len(chunks):
+        ctx.oblige("tie:IoNames.apply_names-vs-real-_apply_custom_io_names_on_ir", False, "tie", out[-1500:])
+    else:
+        bad = []
+        for k, ch in enumerate(chunks):
+            l = lists[k]
+            bad += [ch[int(t.replace("%nat", ""))] for t in ([] if l in ("nil", "[]") else l.strip("[]").split(";")) if t.strip()]
+        ctx.oblige(f"tie:IoNames.apply_names-equals-real-_apply_custom_io_names_on_ir({len(rows)} graphs)", not bad, "tie",
+                   "" if not bad else "model and implementation differ on " +
+                   "; ".join(f"values={b} pairs={p} real={r}" for b, p, r in bad[:5]))
+    ctx.oblige(f"tie:_apply_custom_io_names_on_ir-raises-only-the-modelled-refusals({n_cases} graphs)", not diverge, "tie",
+               "" if not diverge else json.dumps(diverge[:3]))
+    return {"graphs": n_cases, "distribution": dist}
+
+
 def run(ctx):
     import jax
     import onnx_ir as ir
@@ -62,6 +177,8 @@ def run(ctx):
         "Coq 8.16.1 kernel; C05 theorems closed under the global context",
         "tools/py2coq.py + PyLib.v string functions for _should_always_keep (validated below against the running Python)",
         "hand model `prune` of prune_unused_graph_inputs_ir tied by differential run",
+        "hand model IoNames.apply_names of the decision core of _apply_custom_io_names_on_ir (after its aliasing step, which the tied "
+        "graphs do not trigger), tied by differential run on random onnx_ir graphs; the naming contract is also decided directly on every real result",
         "tools/onnx2coq.py + Onnx.v (trusted converter of the exported ModelProto); jax.eval_shape as the JAX-side oracle of the signature",
     ]
     common.build_props(ctx, "C05", ["GenInterface"])
@@ -209,7 +326,8 @@ def run(ctx):
             ctx.violate(key, f"exported interface contradicts the callable's signature: inputs={info['inputs']} outputs={info['outputs']}", info)
     if all_ok:
         ctx.oblige(f"validator:interface_ok evaluated in Coq on {len(items)} real exports", True, "tie", f"{n_bad} rejected by the checker")
-    ctx.coverage.update({"evaluations": len(rows) + len(items), "distinct_nontrivial": len(items),
+    names_cov = names_tie(ctx, ir)
+    ctx.coverage.update({"custom_names": names_cov, "evaluations": len(rows) + len(items), "distinct_nontrivial": len(items),
                          "rule": "prune: random graphs over a pool of 19 input names x used/unused; interface: 17 programs (unused inputs, constant/duplicated/aliased outputs, "
                                  "pytrees, int/bool/f16, symbolic dims, 4-D images) x {single,double} x {default,custom names} x layout flags, checked against jax.eval_shape",
                          "programs": len(progs), "exports_checked": len(items), "exports_rejected_loudly": rejected,
